@@ -76,6 +76,7 @@ type Engine struct {
 	litSig        *types.Signature            // signature of the function literal being executed
 	litArgs       [][]Val                     // arguments of the enclosing function literals, outermost first
 	finals        map[string]Val              // values of mutated arguments after the call being applied
+	localGhost    map[string]bool             // "local-ghost" history variables of the function under verification
 	ghostMod      map[string]bool             // ghost state assigned by callees (over-approximated per function)
 	fieldW        map[int]bool                // field indices written in the function (loop frames)
 	fieldWObj     map[int]map[*types.Var]bool // fid -> variables whose objects are the only ones written at fid (empty: any object)
